@@ -242,8 +242,15 @@ def alkene(draw):
     a, b = draw(st.sampled_from([1, 1, 2, 3, 5, 8, 12, 17])), draw(st.sampled_from([1, 1, 2, 4, 7, 9, 16]))
     m1, m2 = draw(st.sampled_from(['/', '\\', ''])), draw(st.sampled_from(['/', '\\', '']))
     left, right = chain(a), chain(b)
-    kind = draw(st.sampled_from(['di', 'di', 'tri', 'diene', 'ring']))
-    if kind == 'di':
+    kind = draw(st.sampled_from(['di', 'di', 'tri', 'diene', 'ring', 'tetra', 'tetra']))
+    if kind == 'tetra':
+        # both ends carry two different substituents: which pair RDKit names as the stereo atoms (the higher-priority ones)
+        # and which pair a pattern happens to match are independent choices
+        subs = ['C', 'CC', 'O', 'OC', 'C(C)C', 'CCC', 'C(C)(C)C', 'C=C', '[CH2]']
+        x1, x2 = draw(st.sampled_from(subs)), draw(st.sampled_from(subs))
+        m3, m4 = draw(st.sampled_from(['/', '\\'])), draw(st.sampled_from(['/', '\\']))
+        smi = '%s%sC(%s)=C(%s%s)%s' % (left, m3, x1, m4, x2, right)
+    elif kind == 'di':
         smi = '%s%sC=C%s%s' % (left, m1, m2, right)
     elif kind == 'tri':
         smi = '%s%sC(C)=C%s%s' % (left, m1, m2, right)
@@ -294,6 +301,22 @@ def oov():
     return st.sampled_from(OOV)
 
 
+@st.composite
+def large(draw, metal='Pt'):
+    """30-75 heavy atoms: long (branched) chains with one distinguished end - patterns get thousands of raw embeddings, and
+    the distinguished atom can be first or last in the atom order"""
+    k = draw(st.integers(24, 70))
+    head = draw(st.sampled_from(['[CH2]', '[CH2]', 'O', 'OC(=O)', 'C=C', 'C(=O)', 'C[CH]', 'C#C', '[O]', 'c1ccccc1', 'C1CC1'] +
+                                (['[%s]' % metal, '[%s]C([%s])' % (metal, metal)] if metal else [])))
+    chain = ['C'] * k
+    for _ in range(draw(st.integers(0, 3))):
+        chain[draw(st.integers(1, k - 2))] = draw(st.sampled_from(['C(C)', 'C(C)(C)', 'C(CC)']))
+    if draw(st.integers(0, 5)) == 0:
+        return 'CC(C)(C)' * draw(st.integers(6, 12)) + draw(st.sampled_from(['C', '[CH2]', 'O']))
+    smi = head + ''.join(chain) if draw(st.booleans()) else ''.join(chain) + (head if not head.startswith('OC') else 'C(=O)O')
+    return smi if Chem.MolFromSmiles(smi) is not None else '[CH2]' + 'C' * k
+
+
 _WITNESS = {}
 
 
@@ -324,6 +347,10 @@ def family(name, metal='Pt', max_heavy=12):
         return witness(metal)
     if name == 'witness-gas':
         return witness(None)
+    if name == 'large':
+        return large(metal)
+    if name == 'large-gas':
+        return large(None)
     return {
         'gas': gas(max_heavy),
         'alkene': alkene(),
